@@ -201,7 +201,9 @@ ZoneBases ==
           T("name", "h.example."), T("int", "1"), T("int", "2"), T("int", "3"), T("int", "4"), T("int", "5")>>,
         <<T("owner", "ns"), T("ttl", "60"), T("class", "IN"), T("type", "TXT"), T("str", "\"a b\""), T("str", "c")>>,
         <<T("owner", "www"), T("type", "A"), T("ip", "192.0.2.1")>>,
-        <<T("owner", "mail"), T("type", "MX"), T("int", "10"), T("name", "mail")>> >>]]
+        <<T("owner", "mail"), T("type", "MX"), T("int", "10"), T("name", "mail")>> >>],
+     \* nothing but a comment: a zone without records (and, without an origin argument, without origin)
+     Z3 |-> [sep |-> " ", nl |-> TRUE, lines |-> << <<T("any", "; no records")>> >>]]
 MsgTBases ==
     [X1 |-> [sep |-> " ", nl |-> TRUE, lines |-> <<
         <<T("any", "id"), T("int", "1234")>>,
@@ -249,7 +251,7 @@ QuoteNames == {"emptyq", "unterm", "nlq", "popen", "pclose"}
 NumNames == {"neg1", "big32", "big9", "huge", "altlow", "althigh"}
 VariantsOfRole(role) ==
     CASE role = "label" -> EscNames \cup {"empty", "long"}
-      [] role = "ttl" -> EscNames \cup QuoteNames \cup {"badttl"}
+      [] role = "ttl" -> EscNames \cup QuoteNames \cup {"badttl"} \cup NumNames
       [] role = "type" -> EscNames \cup QuoteNames \cup {"bogus", "bigtype"}
       [] role = "class" -> EscNames \cup QuoteNames \cup {"bogus", "bigclass"}
       [] role = "dir" -> {"dirgarbage", "emptyq"}
@@ -357,6 +359,9 @@ TokVerdict(k, role, v, last) ==
       [] v = "emptyq" -> IF role \in {"str", "any"} THEN "free" ELSE "err"
       [] v = "esc0" -> IF role = "label" /\ last THEN "err" ELSE "free"
       [] v \in {"esc1", "esc2", "esc256", "esc999"} -> IF role = "any" THEN "free" ELSE "err"
+      \* a TTL is a number 0 .. 2^32 - 1 (RFC 2181 section 8 caps it lower; the library documents 2^32 - 1)
+      [] v \in {"neg1", "big32", "huge", "altlow", "althigh"} -> IF role = "ttl" THEN "err" ELSE "free"
+      [] v = "big9" -> IF role = "ttl" THEN "ok" ELSE "free"
       [] OTHER -> "free"
 TextVerdict(k, b, h) ==
     LET x == BaseLay(k, b) IN
